@@ -39,7 +39,7 @@ func main() {
 	if o.Shard < 0 {
 		core.RunShards(res, core.NCPU(), nil, nil)
 		assumptions(res)
-		res.Assume("GAP: the maketoken/edittoken/listtokens signalling commands are not driven; they reach the token set only through token.Update(tok,\"\"), token.Get+Clone+token.Update(t,tag) and token.List, which the library alphabet drives")
+		res.Assume("the edittoken signalling command is driven only in the concurrent program library-update-vs-edittoken; maketoken and listtokens are not driven here (C11 drives them): they reach the token set only through token.Update(tok,\"\") and token.List, which the library alphabet drives")
 		cleanupScratch()
 		core.Finish(res, start)
 	}
